@@ -1037,7 +1037,19 @@ func (tr *Tr) callByContract(fr *Frame, site ssa.Instruction, fn *ssa.Function, 
 	env.old = nil
 	fr.callOrd["pre:"+fn.Name()]++
 	ord := fr.callOrd["pre:"+fn.Name()]
+	// A callee whose contract promises nothing to its caller (no ensures, no frame; only its own freedom from run-time panics
+	// is proved under its requires) called from a `nosafety` function: the caller's contract speaks about executions that do
+	// not panic, a violated safety precondition can only make the callee panic, and nothing of the callee's contract is
+	// assumed afterwards (the heap is havocked). The call site is reported as unchecked instead of raising obligations that
+	// say nothing about the caller's property.
+	safetyOnly := tr.contract != nil && tr.contract.NoSafety && len(ct.Ensures) == 0 && !ct.ModSet && (ct.Alloc == nil || tr.contract.Alloc == nil)
+	if safetyOnly && len(ct.Requires) > 0 {
+		tr.trust("call of " + funcDisplay(fn) + " from a nosafety function: the callee's safety preconditions are not checked at this call site (its contract has no postcondition to rely on; a violated precondition means a run-time panic, which is outside the caller's contract)")
+	}
 	for i, r := range ct.Requires {
+		if safetyOnly {
+			break
+		}
 		t, err := env.EvalBool(r.Expr)
 		if err != nil {
 			tr.specError(r, err)
